@@ -164,7 +164,65 @@ def _layout_order(prog, chk):
 
 
 # ------------------------------------------------------------------------------------------------------
+def _typed_defaults(prog, chk, R, ev):
+    """Before any constructor code of a new object runs, EVERY instance slot — also those of classes further down the hierarchy —
+    holds the typed default value of its field: a base constructor (or base field initialiser) can reach a derived class's field
+    through a virtual call, and must read 0 / "" / null there, not an untyped empty value.  At each site that starts a constructor
+    chain on a freshly allocated object: a full loop over the class's instance fields that stores defaultValueForField(field, …)
+    into the field's slot dominates the start of the chain."""
+    chain = R.ev_method('runConstructorChain')
+    dflt = R.ev_method('defaultValueForField')
+    n = 0
+    from ..kernels import enclosing_stmts
+    for f in [x for x in R.ev_methods() if x.body and x is not chain]:
+        g = prog.cfg(f)
+        for c in g.calls(lambda e: e['k'] == 'mcall' and e.get('callee') == chain.name):
+            a = _args(c.e)
+            if len(a) < 2:
+                continue
+            objx = SX.strip(a[1])
+            # only where the object is created in this function (`new`): a local initialised from a shared_ptr construction / allocation helper
+            if not (SX.is_node(objx) and objx.get('k') == 'ref' and objx.get('kind') == 'var'):
+                continue
+            n += 1
+            fills = []
+            for d in g.nodes:
+                if d.kind not in ('assign', 'call') or not SX.is_node(d.e):
+                    continue
+                w = SX.write_target(d.e)
+                if not w or w[2] != '=':
+                    continue
+                l0 = SX.strip(w[0])
+                if not (SX.is_node(l0) and l0.get('k') == 'index' and _member_of(l0.get('base'), 'fields')):
+                    continue
+                root = SX.strip(SX.strip(l0['base']).get('base'))
+                while SX.is_node(root) and (root.get('k') == 'opcall' and root.get('op') in ('->', '*') and root.get('args') or
+                                            root.get('k') == 'mcall' and SX.short(root.get('callee', '')) == 'get' or root.get('k') == 'un' and root.get('op') == '*'):
+                    root = SX.strip(root['args'][0] if root['k'] == 'opcall' else (root.get('obj') if root['k'] == 'mcall' else root.get('e')))
+                if not (SX.is_node(root) and root.get('k') == 'ref' and root.get('id') == objx.get('id')):
+                    continue
+                if not _mentions(w[1], lambda x: x.get('k') in ('call', 'mcall') and x.get('callee') == dflt.name):
+                    continue
+                loops = [s_ for s_ in enclosing_stmts(f.body, d.e) if s_['k'] == 'forrange']
+                full = bool(loops) and 'instanceFields' in SX.show(loops[-1].get('range')) and not any(
+                    x_['k'] in ('break', 'return') for x_ in SX.walk(loops[-1]['body'], into_lambdas=False))
+                if full:
+                    fills.append(d)
+            heads = []
+            ok = False
+            for d in fills:
+                loops = [s_ for s_ in enclosing_stmts(f.body, d.e) if s_['k'] == 'forrange']
+                hs = [h for h in g.nodes if h.kind == 'loophead' and h.e is loops[-1]]
+                if hs and g.dominates(hs[0], c):
+                    ok = True
+            chk.ob('R08.1', f, c.ln or f.ln, ok,
+                   'every instance slot of the new object holds its field\'s typed default (full loop over the class\'s instance fields storing %s) before the constructor chain '
+                   'starts: a base constructor can read a derived class\'s field through a virtual call' % dflt.short, key='typed-defaults:%s' % f.short)
+    chk.count('constructor chains started on new objects', n, 1)
+
+
 def _construction(prog, chk, R, ex, ev):
+    _typed_defaults(prog, chk, R, ev)
     f = R.ev_method('runConstructorChain')
     fi_f = R.ev_method('runFieldInitialisers')
     g = prog.cfg(f)
